@@ -314,6 +314,10 @@ func (n *CandidateNode) CreateReplacement(kind Kind, tag string, value string) *
 func (n *CandidateNode) CopyAsReplacement(replacement *CandidateNode) *CandidateNode {
 	newCopy := replacement.Copy()
 	newCopy.Parent = n.Parent
+	// a replacement stands where n stood: same document of the same file
+	newCopy.document = n.document
+	newCopy.fileIndex = n.fileIndex
+	newCopy.filename = n.filename
 
 	if n.IsMapKey {
 		newCopy.Key = n
